@@ -26,8 +26,6 @@
     map order and what other sessions had loaded.  Fixed in goflow as 968ef02: the source resolves the name; the loop is gone.)
    flows/definition languageTranslation.Enumerate  localization.go:61,62   unexported type, no caller.
    flows/definition/legacy TransformTranslations  utils.go:63   every iteration only touches transformed[language].
-   flows/definition/legacy migrateRuleSet  definition.go:712   currencyAmounts[cfg.CurrencyCode] = cfg.Amount with an
-        error when the currency was already given another amount.
    flows/definition/legacy addTranslationMap / addTranslationMultiMap  v13.go:99,113
         `if language == baseLanguage { inBase = .. } else { l.addTranslation(language, ..) }`.
    flows/definition/migrations Migrate13_5  13_x.go:126   per language: translation of that language only.
@@ -54,7 +52,6 @@ Definition map_range_exceptions : list exception_entry := [
   x "flows/definition" "languageTranslation.Enumerate" 0 "flows/definition.languageTranslation" [ECallback; ENestedMapRange] RNoCaller;
   x "flows/definition" "languageTranslation.Enumerate" 1 "flows/definition.itemTranslation" [ECallback] RNoCaller;
   x "flows/definition/legacy" "TransformTranslations" 0 "flows/definition/legacy.Translations" [EAssignOuter; EMapWriteKey] RKeyPartitioned;
-  x "flows/definition/legacy" "migrateRuleSet" 0 "map[string]struct{CurrencyCode string ""json:\""currency_code\""""; Amount github.com/shopspring/decimal.Decimal ""json:\""amount\""""}" [ELoopCarried; EMapWriteOther; EReturnErr] RConflictChecked;
   x "flows/definition/legacy" "migratedLocalization.addTranslationMap" 0 "flows/definition/legacy.Translations" [EAssignOuter; ECallImpure; ECallStmt] RKeyGuardedAssign;
   x "flows/definition/legacy" "migratedLocalization.addTranslationMultiMap" 0 "map[gocommon/i18n.Language][]string" [EAssignOuter; ECallImpure; ECallStmt] RKeyGuardedAssign;
   x "flows" "Results.Context" 0 "flows.Results" [ECallImpure; EMapWriteKey] RPureCalleeReviewed;
@@ -66,8 +63,16 @@ Definition map_range_exceptions : list exception_entry := [
   x "utils/jsonpath" "visit" 0 "map[string]any" [ECallStmt; ECallback; EMapWriteKey] RKeySelected
 ].
 
-(* reviewed uses of ambient process state in library code (package, function, callee): none today *)
-Definition ambient_allowed : list (string * string * string) := [].
+(* reviewed uses of ambient process state in library code (package, function, callee).
+   time.LoadLocation answers the zone of the PROCESS for the name "Local":
+   - envs.LoadTimezone refuses that name before it calls time.LoadLocation (the four sites that take a zone name from a
+     contact's message, a flow expression or a modifier go through it);
+   - envs.ReadEnvironment and flows.ReadContact read host-stored JSON: known finding
+     process-env:stored-timezone-local (a host must not supply the name "Local"). *)
+Definition ambient_allowed : list (string * string * string) :=
+  [("envs", "LoadTimezone", "time.LoadLocation");
+   ("envs", "ReadEnvironment", "time.LoadLocation");
+   ("flows", "ReadContact", "time.LoadLocation")].
 
 (* The packages of github.com/nyaruka/gocommon that goflow imports (second table of gen/MapRangeSites.v, read from the module
    cache).  goflow cannot repair these; the three order-dependent ones are known findings with a probe in the driver:
